@@ -87,7 +87,9 @@ def timeout_with_mapper_(
                     nonlocal switched
                     if timer_wins():
                         switched = True
-                        subscription.disposable = other_.subscribe(observer)
+                        subscription.disposable = other_.subscribe(
+                            observer, scheduler=scheduler
+                        )
 
                 d.disposable = timeout.subscribe(
                     on_next, on_error, on_completed, scheduler=scheduler
